@@ -22,7 +22,18 @@ Section G.
   Theorem generated_sign_refuses_zero_key (s : scheme) (msg : bytes) :
     gen_SecretKey_sign E (f0 K) s msg = Val (Err SigningError).
   Proof. rewrite r_sk_sign, (C01_zero_key_refused K laws O C s msg). reflexivity. Qed.
+  (* C01: the one exception - when the message hashes to the identity the honest signature is the identity and the
+     translated verifier refuses it with InvalidInputs *)
+  Theorem generated_degenerate_hash_rejected (sk : car K) (s : scheme) (msg : bytes) (sg : tagged) :
+    Hs K O C s (public_key sk) msg = f0 K ->
+    gen_SecretKey_sign E sk s msg = Val (Ok sg) ->
+    gen_Signature_verify E sg (public_key sk) msg = Val (Err InvalidInputs).
+  Proof.
+    intros Hh. rewrite r_sk_sign, r_sig_verify. intros Hs. injection Hs as Hs.
+    rewrite (C01_degenerate_hash_rejected K laws O C sk s msg sg Hh Hs). reflexivity.
+  Qed.
 End G.
 
 Print Assumptions generated_sign_then_verify.
 Print Assumptions generated_sign_refuses_zero_key.
+Print Assumptions generated_degenerate_hash_rejected.
